@@ -247,6 +247,25 @@ def check(run):
     p12.forwarder_rules(run, (T,))
 
     accept_queue_drained_rule(run)
+    run.clause('a SYN-ACK completes only the connect it answers: the completion of m_connect_handler in incoming_packet is guarded by the packet\'s channel being the socket\'s current channel (a SYN-ACK for a cancelled connect must not complete a later connect to another acceptor)')
+    ipk = fx.fn1(T + '::incoming_packet')
+    run.touch(ipk)
+    comp = [f_ for f_ in handlers.flows_in(fx, ipk) if f_.entity == 'field:' + T + '::m_connect_handler' and (f_.dest == 'post' or f_.kind in ('move', 'exchange', 'invoke'))]
+    if not comp:
+        run.broke('tcp::socket::incoming_packet no longer completes m_connect_handler (anchor vanished)')
+    for f_ in comp:
+        okc = False
+        for a_, p_ in q.guards_at(ipk, f_.site):
+            ca = q.cmp_atom(a_)
+            if not ca:
+                continue
+            op_ = ca[0] if p_ else q.NEG[ca[0]]
+            ts = {q.render(ipk, ca[1]).replace('this->', ''), q.render(ipk, ca[2]).replace('this->', '')}
+            if op_ == '==' and ts == {'p.channel', 'm_channel'}:
+                okc = True
+        run.check(okc, 'R5', 'synack-for-this-connect', T + '::incoming_packet:syn_ack', ipk.loc(f_.site),
+                  'the connect is completed by ANY SYN-ACK that reaches the socket (no dominating p.channel == m_channel test): the SYN-ACK of an earlier, cancelled connect completes a later connect to a different acceptor with success - a connect succeeds with no accept on the acceptor it dialled, and the two connections are crossed',
+                  'completed only when p.channel == m_channel')
     run.clause('close(ec) ends listening: the listen limit has a closed writer set and is reset on every path of acceptor::close(ec)')
     engines.r2_writer_table(run, A + '::m_queue_size_limit', {A + '::acceptor': 'constructed not listening', A + '::listen': 'starts listening', A + '::close': 'stops listening'},
                             required=[A + '::listen', A + '::close'])
